@@ -25,14 +25,20 @@ for cfg in CFGS:
         cr = facts.load(dirs, cfg, fname, expect_hash=th)
         names.setdefault(cr.name, set()).update(cr.bodies.keys())
         key = "%s|%s|%s" % (cr.name, cfg, fname)
-        sigs[key] = {}
+        sigs[key] = {"fns": {}, "items": {}, "adts": {}}
         for k, b in cr.bodies.items():
-            if b.get("dk") not in ("Fn", "AssocFn") or "{closure" in k:
+            if "{closure" in k:
                 continue
-            sigs[key][k] = facts.signature(cr, k, b)
+            if b.get("dk") in ("Fn", "AssocFn"):
+                sigs[key]["fns"][k] = facts.signature(cr, k, b)
+            elif (b.get("dk") or "").startswith(("Const", "Static", "AssocConst")) and "hir" in b:
+                sigs[key]["items"][k] = facts.item_fingerprint(b)
+        for k, a in cr.adts.items():
+            if a.get("kind") == "Struct" and a.get("variants"):
+                sigs[key]["adts"][k] = [[f.get("name"), f.get("ty")] for f in a["variants"][0].get("fields") or []]
 path = os.path.join(facts.VERIF, "refs", "known_fns.json")
 with open(path, "w") as fh:
     fh.write("{\n" + ",\n".join('"%s": [\n%s\n]' % (k, ",\n".join(json.dumps(x) for x in sorted(v))) for k, v in sorted(names.items())) + "\n}\n")
 with open(os.path.join(facts.VERIF, "refs", "known_sigs.json"), "w") as fh:
     json.dump(sigs, fh, indent=0, sort_keys=True)
-print({k: len(v) for k, v in names.items()}, {k: len(v) for k, v in sigs.items()})
+print({k: len(v) for k, v in names.items()}, {k: (len(v["fns"]), len(v["items"]), len(v["adts"])) for k, v in sigs.items()})
